@@ -24,10 +24,14 @@ def main():
     ap.add_argument("--tier", default="quick")
     ap.add_argument("--in-repo", action="store_true")
     ap.add_argument("--seeds", default="0")
+    ap.add_argument("--parallel", type=int, default=1, help="run the checks of --checks concurrently against the one patched tree")
+    ap.add_argument("--out", default=None, help="result file name (default result_<tier>.json)")
     a = ap.parse_args()
     d = ROOT / "seeded" / a.sid
     meta = json.loads((d / "meta.json").read_text())
     checks = (a.checks.split(",") if a.checks else meta.get("checks") or [meta["property"]])
+    if checks == ["ALL"]:
+        checks = [f"C{i:02d}" for i in range(1, 21)]
     patch = d / "patch.diff"
     res = {"id": a.sid, "checks": {}, "tier": a.tier}
     if a.in_repo:
@@ -53,21 +57,30 @@ def main():
         if demo:
             r = subprocess.run(["/venv/bin/python", str(demo)], capture_output=True, text=True, env=dict(env, PYTHONPATH=str(wt)), cwd=str(wt), timeout=900)
             res["demo_exit_with_change"] = r.returncode
-        for c in checks:
-            for seed in a.seeds.split(","):
-                t0 = time.time()
-                r = subprocess.run([str(ROOT / "check"), c, "--tier", a.tier], capture_output=True, text=True, env=dict(env, VERIF_SEED=seed), cwd=str(ROOT), timeout=3600)
-                lines = [l for l in r.stdout.splitlines() if l.startswith(("VIOLATION", "OK", "KNOWN-FINDING"))]
-                viol = [l for l in lines if l.startswith("VIOLATION")]
-                replay = None
-                if viol and "replay=" in viol[0]:
-                    rp = ROOT / viol[0].split("replay=")[1].split()[0]
-                    if rp.exists():
-                        j = json.loads(rp.read_text())
-                        f = j.get("failure") or {}
-                        replay = {"kind": j.get("kind"), "family": f.get("family"), "detail": (f.get("detail") or "")[:300], "no_longer_checks": j.get("no_longer_checks")}
-                res["checks"].setdefault(c, []).append({"seed": int(seed), "exit": r.returncode, "verdict": viol[0] if viol else (lines[-1] if lines else r.stderr[-300:]),
-                                                        "replay": replay, "wall_s": round(time.time() - t0, 1)})
+        def one(c, seed):
+            t0 = time.time()
+            r = subprocess.run([str(ROOT / "check"), c, "--tier", a.tier], capture_output=True, text=True, env=dict(env, VERIF_SEED=seed), cwd=str(ROOT), timeout=3600)
+            lines = [l for l in r.stdout.splitlines() if l.startswith(("VIOLATION", "OK", "KNOWN-FINDING"))]
+            viol = [l for l in lines if l.startswith("VIOLATION")]
+            replay = None
+            if viol and "replay=" in viol[0]:
+                rp = ROOT / viol[0].split("replay=")[1].split()[0]
+                if rp.exists():
+                    j = json.loads(rp.read_text())
+                    f = j.get("failure") or {}
+                    replay = {"kind": j.get("kind"), "family": f.get("family"), "detail": (f.get("detail") or "")[:300], "no_longer_checks": j.get("no_longer_checks")}
+            return c, {"seed": int(seed), "exit": r.returncode, "verdict": viol[0] if viol else (lines[-1] if lines else r.stderr[-300:]),
+                       "replay": replay, "wall_s": round(time.time() - t0, 1)}
+
+        jobs = [(c, seed) for c in checks for seed in a.seeds.split(",")]
+        if a.parallel > 1:
+            from concurrent.futures import ThreadPoolExecutor
+            with ThreadPoolExecutor(a.parallel) as ex:
+                outs = list(ex.map(lambda j: one(*j), jobs))
+        else:
+            outs = [one(*j) for j in jobs]
+        for c, rec in outs:
+            res["checks"].setdefault(c, []).append(rec)
     finally:
         for f, b in saved.items():
             f.write_bytes(b)
@@ -80,7 +93,7 @@ def main():
         sh(f"/venv/bin/python {ROOT}/tools/py2lean.py --repo /repo --out {ROOT}/lean/SparseV/Generated")
     res["caught"] = any(x["exit"] == 1 for v in res["checks"].values() for x in v)
     print(json.dumps(res, indent=1))
-    (d / f"result_{a.tier}.json").write_text(json.dumps(res, indent=1))
+    (d / (a.out or f"result_{a.tier}.json")).write_text(json.dumps(res, indent=1))
     return 0
 
 
